@@ -7,7 +7,7 @@
    expected_diff = asserted - running - earlier (real_only for an assertion on a real posting,
    everything for one on a virtual posting). *)
 From LedgerV Require Import Base.Prelude Base.Round Model.Amount Model.Xact Model.Assert
-  Proofs.AmountProofs Proofs.XactProofs Proofs.AssertProofs Gen.SourceGuards.
+  Proofs.AmountProofs Proofs.XactProofs Proofs.AssertProofs Proofs.AssertDeferredProofs Gen.SourceGuards.
 From Coq Require Import Qabs.
 Local Open Scope Q_scope.
 
@@ -140,6 +140,157 @@ Example ex_assertion_on_generated_account :
    | [Ok (Accepted _); Err EAssertOff] => True
    | _ => False end).
 Proof. vm_compute. split; [reflexivity | exact I]. Qed.
+
+(* ---- deferred postings `<Account>`: POST_DEFERRED is not POST_VIRTUAL, so while its transaction is read such a posting is
+   an ordinary real one (it must balance; a later `= AMOUNT` of the same transaction on the account counts it: d_w is all
+   resolve_posts sees); once the transaction is accepted the account holds it back until the file of the -f option
+   has been read to its end (run_journal_d; JEndOfFile is not the end of an included file) ---- *)
+
+(* without `<..>` postings, in one file, the journal loop is the one of before *)
+Theorem journal_without_deferred_postings_is_the_plain_journal : forall ext ord permissive xs pl hist held,
+  run_journal_d ext ord permissive pl hist held (map plain_item xs) = run_journal_x ext ord permissive pl hist xs.
+Proof. exact run_journal_d_plain. Qed.
+Print Assumptions journal_without_deferred_postings_is_the_plain_journal.
+
+(* up to the end of the file no assertion verdict and no assigned amount depends on what the accounts hold back: the
+   running balance a `= AMOUNT` is judged on is the fold of the earlier NON-deferred postings, in file order *)
+Theorem deferred_postings_play_no_part_before_the_end_of_the_file : forall ext ord permissive xs pl hist held,
+  no_eof xs = true ->
+  run_journal_d ext ord permissive pl hist held xs = run_journal_d ext ord permissive pl hist [] xs.
+Proof. exact held_plays_no_part. Qed.
+Print Assumptions deferred_postings_play_no_part_before_the_end_of_the_file.
+
+(* at the end of the file they reach their accounts, behind what is there: the next file's assertions count them *)
+Theorem end_of_file_hands_deferred_postings_to_their_accounts : forall ext ord permissive xs pl hist held,
+  run_journal_d ext ord permissive pl hist held (JEndOfFile :: xs) =
+  run_journal_d ext ord permissive pl (hist ++ held) [] xs.
+Proof. exact end_of_file_releases. Qed.
+Print Assumptions end_of_file_hands_deferred_postings_to_their_accounts.
+
+(* and nothing is lost or counted twice on the way: what reaches the accounts at once plus what is held back sums, for
+   every account, kind of assertion and commodity, to the transaction's postings *)
+Theorem deferred_and_immediate_postings_partition_the_transaction : forall acct ro c ps fl now later,
+  split_deferred fl ps = (now, later) ->
+  running (posts_to_history now) acct ro c + running (posts_to_history later) acct ro c ==
+  running (posts_to_history ps) acct ro c.
+Proof. exact split_deferred_running. Qed.
+Print Assumptions deferred_and_immediate_postings_partition_the_transaction.
+
+(* non-vacuity:  x0: A $1.00 / Q ;  x1: <A> $5.00 / Q ;  x2: <A> $2.00 / A $1.00 = $4.00 / Q   is accepted (the
+   deferred posting of x1 is not counted, the one of x2 itself is), `= $9.00` there is refused; after the end of the
+   file  A $0.00 = $9.00 / Q $0.00  is accepted *)
+Example ex_deferred_postings :
+  let usd := Some [36%Z] in
+  let A := [65%Z] in let Qa := [81%Z] in
+  let d df acct a asg := mkD (mkW (mkPost acct PReal a None None false false false) asg) df in
+  let am q := Some (mkAmt q 2 false usd) in
+  let x0 := JXact [d false A (am 1) None; d false Qa None None] in
+  let x1 := JXact [d true A (am 5) None; d false Qa None None] in
+  let x2 asg := JXact [d true A (am 2) None; d false A (am 1) (am asg); d false Qa None None] in
+  let x3 := JXact [d false A (am 0) (am 9); d false Qa (am 0) None] in
+  (match run_journal_d (fun _ _ => []) false false [] [] [] [x0; x1; x2 4; JEndOfFile; x3] with
+   | [Ok (Accepted _); Ok (Accepted _); Ok (Accepted _); Ok (Accepted _)] => True
+   | _ => False end) /\
+  (match run_journal_d (fun _ _ => []) false false [] [] [] [x0; x1; x2 9; x3] with
+   | [Ok (Accepted _); Ok (Accepted _); Err EAssertOff; Err EAssertOff] => True
+   | _ => False end).
+Proof. vm_compute. split; exact I. Qed.
+
+(* ---- the cost of a posting plays no part in a `= AMOUNT` clause: whatever `@ COST` / `@@ COST` the posting itself and the
+   earlier postings of the transaction carry, the verdict is the same and the assigned amount is the same - the
+   quantity counted is the amount (with_cost f replaces cost and POST_COST_CALCULATED by anything) ---- *)
+Theorem costs_play_no_part_in_an_assertion : forall ord cp permissive hist earlier w f g,
+  resolve_assigned ord cp permissive hist (map (with_cost f) earlier) (mkW (with_cost g (w_post w)) (w_assigned w)) =
+  match resolve_assigned ord cp permissive hist earlier w with
+  | Ok p => Ok (mkPost (p_acct p) (p_kind p) (p_amt p) (fst (g (w_post w))) (p_lotprice p) (p_calculated p)
+                       (p_generated p) (snd (g (w_post w))))
+  | Err e => Err e
+  end.
+Proof. exact resolve_assigned_costs. Qed.
+Print Assumptions costs_play_no_part_in_an_assertion.
+
+(* ---- the bare clause `= 0` (no commodity): every commodity of the account is meant.  diff_at .. c = written - running -
+   earlier in commodity c (the written number counts in the commodity-less entry only) ---- *)
+Theorem bare_assignment_completes_every_commodity : forall ord cp permissive hist earlier w amt p',
+  w_assigned w = Some amt -> p_amt (w_post w) = None -> acomm amt = None ->
+  resolve_assigned ord cp permissive hist earlier w = Ok p' ->
+  exists x, p_amt p' = Some x /\ p_acct p' = p_acct (w_post w) /\ p_kind p' = p_kind (w_post w) /\
+    ((forall c, at_comm x c == diff_at hist earlier (w_post w) amt c) /\ is_zero cp x = false \/
+     x = zero_of amt /\
+     ((forall c0 : comm, (0 <= cp c0 <= 230)%Z) -> forall c, Qabs (diff_at hist earlier (w_post w) amt c) < 1)).
+Proof. exact bare_assignment_spec. Qed.
+Print Assumptions bare_assignment_completes_every_commodity.
+
+Theorem bare_assertion_decided_on_every_commodity : forall ord cp permissive hist earlier w a amt r,
+  w_assigned w = Some amt -> p_amt (w_post w) = Some a -> acomm amt = None ->
+  resolve_assigned ord cp permissive hist earlier w = r ->
+  (exists e, r = Err e /\ e <> EAssertOff) \/
+  exists d4, nodup_keys d4 /\
+    (forall c, bden d4 c == diff_at hist earlier (w_post w) amt c - at_comm (strip a) c) /\
+    r = if negb permissive && negb (bal_is_zero cp d4) then Err EAssertOff else Ok (w_post w).
+Proof. exact bare_assertion_spec. Qed.
+Print Assumptions bare_assertion_decided_on_every_commodity.
+
+(* non-vacuity: the account holds $10.00 and 3 AAA:  `A  = 0`  cannot be one amount; holding $10.00 only it receives
+   $-10.00; and  `A  $-10.00 = 0`  is refused while 3 AAA remain *)
+Example ex_bare_clause :
+  let usd := Some [36%Z] in let aaa := Some [65; 65; 65]%Z in
+  let h1 := [mkA [65%Z] false (mkAmt 10 2 false usd)] in
+  let h2 := h1 ++ [mkA [65%Z] false (mkAmt 3 0 false aaa)] in
+  let mk a := mkW (mkPost [65%Z] PReal a None None false false false) (Some (mkAmt 0 0 false None)) in
+  resolve_assigned false (fun _ => 2%Z) false h2 [] (mk None) = Err EBadOp /\
+  (exists p, resolve_assigned false (fun _ => 2%Z) false h1 [] (mk None) = Ok p /\
+             p_amt p = Some (mkAmt (-10) 2 false usd)) /\
+  (exists p, resolve_assigned false (fun _ => 2%Z) false h1 [] (mk (Some (mkAmt (-10) 2 false usd))) = Ok p) /\
+  resolve_assigned false (fun _ => 2%Z) false h2 [] (mk (Some (mkAmt (-10) 2 false usd))) = Err EAssertOff.
+Proof.
+  cbn zeta. split; [vm_compute; reflexivity|]. split; [eexists; split; vm_compute; reflexivity|].
+  split; [eexists; vm_compute; reflexivity|]. vm_compute. reflexivity.
+Qed.
+
+(* ---- `apply account N1` .. `apply account Nk`: a posting written `name` inside belongs to the account N1:..:Nk:name
+   (under stack x is the transaction as the journal loop receives it), and it is THAT account's total its `= AMOUNT`
+   consults: the account called `name` at top level is another account and contributes nothing, different written
+   names stay different accounts, nested blocks compose ---- *)
+Theorem apply_account_assertion_consults_the_qualified_account : forall hist n stack name ro c h,
+  a_acct h = name ->
+  running (hist ++ [h]) (qualify (n :: stack) name) ro c == running hist (qualify (n :: stack) name) ro c.
+Proof. exact apply_account_consults_the_qualified_account. Qed.
+Print Assumptions apply_account_assertion_consults_the_qualified_account.
+
+Theorem apply_account_keeps_accounts_apart : forall stack a b, qualify stack a = qualify stack b -> a = b.
+Proof. exact qualify_injective. Qed.
+Print Assumptions apply_account_keeps_accounts_apart.
+
+Theorem nested_apply_account_blocks_compose : forall s1 s2 name, qualify (s1 ++ s2) name = qualify s1 (qualify s2 name).
+Proof. exact qualify_app. Qed.
+Print Assumptions nested_apply_account_blocks_compose.
+
+(* non-vacuity:  x0: T:A $4.00 / A $1.00 / Q ;  inside `apply account T`:  A $0.00 = $4.00 / Q $0.00  is accepted and
+   `= $5.00`, `= $1.00` are refused *)
+Example ex_apply_account :
+  let usd := Some [36%Z] in
+  let A := [65%Z] in let Qa := [81%Z] in let T := [84%Z] in
+  let d acct a asg := mkD (mkW (mkPost acct PReal a None None false false false) asg) false in
+  let am q := Some (mkAmt q 2 false usd) in
+  let x0 := JXact [d (T ++ 58%Z :: A) (am 4) None; d A (am 1) None; d Qa None None] in
+  let x1 asg := JXact (under [T] [d A (am 0) (am asg); d Qa (am 0) None]) in
+  (match run_journal_d (fun _ _ => []) false false [] [] [] [x0; x1 4; x1 5; x1 1] with
+   | [Ok (Accepted _); Ok (Accepted _); Err EAssertOff; Err EAssertOff] => True
+   | _ => False end).
+Proof. vm_compute. exact I. Qed.
+
+(* ---- the order of effects within one transaction: its postings are judged in the order they are written; while the
+   clause of a posting is judged the resolved postings before it are its `earlier`, and nothing written after it is
+   known (the first stage does not mention ws2) ---- *)
+Theorem postings_of_a_transaction_are_judged_in_written_order : forall ord permissive hist ws1 ws2 pl earlier,
+  resolve_posts ord permissive pl hist earlier (ws1 ++ ws2) =
+  match resolve_posts ord permissive pl hist earlier ws1 with
+  | (Ok ps, pl') => resolve_posts ord permissive pl' hist (rev ps) ws2
+  | (Err e, pl') => (Err e, pl')
+  end.
+Proof. exact resolve_posts_app. Qed.
+Print Assumptions postings_of_a_transaction_are_judged_in_written_order.
 
 (* the tie to the source by translation: the lines of /repo/src this model transcribes (harness/translators/src_guards.py
    lists them, with the function each is looked for in) are still there, in the same order, in the source as it is NOW -
